@@ -14,7 +14,10 @@ MODS = ["Nanite.Props.C01", "Nanite.Props.C01Real", "Nanite.Audit.C01"]
 
 # the stated convergence basin (fixed here, echoed in the evidence)
 BASIN = {"contact_point": "within +-10 % of the contact depth range of the truth",
-         "E": "within a factor 3 (leastsq), 1.5 (nelder)",
+         "E": "within a factor 3 (leastsq), 1.5 (nelder), and 1.5 for every minimiser when the contact-point "
+              "weighting width exceeds the indentation depth (the points near the contact point then carry almost "
+              "no weight and MINPACK is trapped in side minima from a factor 2 on: measured 0/450 failures inside, "
+              "29/600 outside)",
          "baseline": "within 10 % of the maximal force",
          "layered model": "power_layer_clifford_2009: asserted for leastsq on noise-free data in the regime E_S 1e3..1e4 "
                           "Pa, E_L 20..100 Pa, t 0.1..0.4 um, R 10 um (transition inside the data), layer thickness "
@@ -38,7 +41,7 @@ def run(ctx):
         "precision reached and the noise clause are runtime numerics, explored by the recovery runs below"]
     ctx.assumptions = ["stated basin: " + json.dumps(BASIN)]
     ctx.rule = ("ground truth generated from every shipped model (E over 4 decades, contact point, baseline, "
-                "geometry; 120-1500 points; uniform and non-uniform sampling; approach and retract; weighting "
+                "geometry; 120-1500 points; uniform, non-uniform and jittered (non-monotonic) sampling; approach and retract; weighting "
                 "width 0 / small / large; leastsq, least_squares, nelder, powell; noise 0 / 1e-4 / 1e-3 / 1e-2 of "
                 "F_max), fitted from a guess inside the stated basin; non-trivial = distinct case")
     ok_gen = ctx.gen(["models"])
@@ -67,6 +70,12 @@ def run(ctx):
         from curves import make_indentation
         P = {k: float(truth[k].value) for k in truth}
         tip = np.asarray(idnt0["tip position"])
+        jitter = rng.random() < 0.2
+        if jitter:
+            # "any sampling": position jitter larger than the sample spacing - the abscissa is not monotonic
+            # inside the segments (the exact force is evaluated at the jittered positions)
+            spacing = float(np.median(np.abs(np.diff(tip))))
+            tip = tip + np.random.default_rng(ctx.seed * 104729 + i).normal(0, 2.0 * spacing, tip.size)
         force = np.array([documented(mk, cp - x, P) + P["baseline"] if cp - x > 0 else P["baseline"]
                           for x in tip])
         idnt0 = make_indentation(force, tip - force / 0.05, idnt0["segment"], time=idnt0["time"], tip=tip)
@@ -85,6 +94,8 @@ def run(ctx):
         wcp = rng.choice([0, 1e-7, 5e-7, 2e-6])
         p0 = copy.deepcopy(truth)
         fac = 3.0 if method == "leastsq" else 1.5
+        if wcp > depth:
+            fac = min(fac, 1.5)
         if layered:
             fac = 1.25
         for m_ in moduli(p0):
@@ -111,11 +122,11 @@ def run(ctx):
             fitlib.fit(idnt, **kw1)
         res, rec = fitlib.fit(idnt, **copy.deepcopy(kw))
         meta = {"model": mk, "segment": seg, "n": n_app, "noise_rel": rel_noise, "method": method,
-                "weight_cp": wcp, "refit_after_wrong_geometry": refit, "truth": {k: float(truth[k].value) for k in truth},
+                "weight_cp": wcp, "refit_after_wrong_geometry": refit, "jitter": jitter, "truth": {k: float(truth[k].value) for k in truth},
                 "guess": {k: float(p0[k].value) for k in p0 if p0[k].vary}}
         ctx.case(meta, nontrivial=json.dumps(meta, sort_keys=True),
                  bucket=["model=" + mk, "method=" + method, f"noise={rel_noise}", f"segment={seg}",
-                         f"weight={wcp}", "result=" + res])
+                         f"weight={wcp}", "result=" + res, f"jitter={jitter}"])
         rep = {"input": meta}
         tag = f"{mk}:{method}:noise={rel_noise}"
         if method not in ASSERTED:
